@@ -41,9 +41,13 @@ def indent (n : Nat) : F := w (List.replicate n ' ')
 
 /-! ### `value_inner` -/
 
-def isWs (c : Char) : Bool := c.isWhitespace || c == '\x0b' || c == '\x0c' || c == '\u0085' || c == ' '
+/-- `char::is_whitespace`: the Unicode `White_Space` property (25 code points) -/
+def isWs (c : Char) : Bool :=
+  let n := c.toNat
+  (9 ≤ n && n ≤ 13) || n == 32 || n == 0x85 || n == 0xA0 || n == 0x1680 || (0x2000 ≤ n && n ≤ 0x200A) ||
+  n == 0x2028 || n == 0x2029 || n == 0x202F || n == 0x205F || n == 0x3000
 
-/-- `str::trim_end` (Unicode `White_Space`; only the ASCII part and NEL / NBSP are modelled). -/
+/-- `str::trim_end` -/
 def trimEnd (s : Str) : Str := (s.reverse.dropWhile isWs).reverse
 
 /-- `value_inner` of a comment (`skip = 2`) or doc string (`skip = 3`). -/
